@@ -52,6 +52,17 @@ for m in sorted(glob.glob(os.path.join(VERIF, 'seeded', '*', 'meta.json'))):
     out.append('| `%s` | %s | %s | %s | %s |' % (d['name'], d.get('what_breaks', '')[:200].replace('|', '\\|').replace('\n', ' '),
                                              d.get('needs_to_manifest', '')[:160].replace('|', '\\|').replace('\n', ' '), conf, checks.replace('|', '\\|')))
 out.append('')
+ben = sorted(glob.glob(os.path.join(VERIF, 'seeded', 'benign', '*', 'meta.json')))
+if ben:
+    out += ['### 8.2b Semantics-preserving changes written by sub-agents (false-alarm probes, `/verif/seeded/benign/`)', '',
+            'The opposite experiment: agents were asked for non-trivial refactorings, restructurings and *correct* relaxations (e.g. seq_cst '
+            'weakened to acquire/release where every plain access stays ordered) that keep every property true and pass the 17 tests. Every '
+            'related check must stay quiet (`tools/benigncheck.py`).', '', '| change | what it does | checks |', '|---|---|---|']
+    for m in ben:
+        d = json.load(open(m))
+        checks = '; '.join('%s: %s' % (k, v[:120]) for k, v in sorted(d.get('checks', {}).items()))
+        out.append('| `%s` | %s | %s |' % (d['name'], d.get('what_changed', '')[:300].replace('|', '\\|').replace('\n', ' '), checks.replace('|', '\\|')))
+    out.append('')
 extra = os.path.join(VERIF, 'tools', 'sensitivity_notes.md')
 if os.path.exists(extra):
     out.append(open(extra).read())
